@@ -1103,17 +1103,27 @@ theorem EtaRange.of_same {k : Consts α} {r r' : RES α} {lo hi : α} (e : EtaRa
   rw [s.gridT, s.gridSoc, s.gridC, s.etaVals] at hv
   exact e T x c v hv
 
-/-- the step-size condition `H_dt` for one step, in terms of the static configuration -/
-def StepOK (k : Consts α) (r : RES α) (etaLo etaHi : α) (s : Step α) : Prop :=
-  0 < s.dt ∧
-  r.pwrOutMax * (1 + k.tol) * s.dt ≤ etaLo * r.energyCapacity * (resLo k r - r.minSoc) ∧
-  r.pwrOutMax * etaHi * s.dt ≤ r.energyCapacity * (r.maxSoc - resHi k r)
+/-- the step-size condition `H_dt` for a step of size `dt`, in terms of the static
+    configuration: one step at `(1+tol)·rating` (resp. `ηhi·rating`) does not cross the whole low
+    (resp. high) ramp -/
+def DtOK (k : Consts α) (r : RES α) (etaLo etaHi dt : α) : Prop :=
+  0 < dt ∧
+  r.pwrOutMax * (1 + k.tol) * dt ≤ etaLo * r.energyCapacity * (resLo k r - r.minSoc) ∧
+  r.pwrOutMax * etaHi * dt ≤ r.energyCapacity * (r.maxSoc - resHi k r)
 
-theorem StepOK.of_same {k : Consts α} {r r' : RES α} {lo hi : α} {s : Step α}
-    (e : StepOK k r lo hi s) (c : SameCfg k r r') : StepOK k r' lo hi s := by
-  unfold StepOK
+theorem DtOK.of_same {k : Consts α} {r r' : RES α} {lo hi dt : α}
+    (e : DtOK k r lo hi dt) (c : SameCfg k r r') : DtOK k r' lo hi dt := by
+  unfold DtOK
   rw [c.pwrOutMax, c.energyCapacity, c.lo, c.hi, c.minSoc, c.maxSoc]
   exact e
+
+/-- `DtOK` for the step size of a `Step` -/
+def StepOK (k : Consts α) (r : RES α) (etaLo etaHi : α) (s : Step α) : Prop :=
+  DtOK k r etaLo etaHi s.dt
+
+theorem StepOK.of_same {k : Consts α} {r r' : RES α} {lo hi : α} {s : Step α}
+    (e : StepOK k r lo hi s) (c : SameCfg k r r') : StepOK k r' lo hi s :=
+  DtOK.of_same e c
 
 /-- **C09.6d one `resStep`** under a sane configuration: the single-step bound with the static
     window `[r.minSoc, r.maxSoc]`, and the configuration is preserved. -/
@@ -1238,7 +1248,7 @@ example : ∃ r', resRun kQ resQ stepsQ = .ok r' ∧
       intro s hs
       simp only [stepsQ, List.mem_cons, List.not_mem_nil, or_false] at hs
       rcases hs with rfl | rfl | rfl <;>
-        norm_num [StepOK, resLo, resHi, resQ, kQ])
+        norm_num [StepOK, DtOK, resLo, resHi, resQ, kQ])
   have e : totalDt stepsQ = 4 := by norm_num [totalDt, stepsQ]
   rw [e] at l u
   have e1 : min resQ.state.soc resQ.minSoc = resQ.minSoc := by norm_num [resQ, resStQ]
@@ -1270,9 +1280,299 @@ theorem C09_soc_run_const_slack_counterexample :
     (by norm_num [kQ]) (by
       intro s hs
       simp only [List.mem_cons, List.not_mem_nil, or_false] at hs
-      rcases hs with rfl | rfl <;> norm_num [StepOK, resLo, resHi, resQ, kQ])
+      rcases hs with rfl | rfl <;> norm_num [StepOK, DtOK, resLo, resHi, resQ, kQ])
     (by norm_num [resQ, resStQ]) (by norm_num [resQ, resStQ])
   rw [he] at this
   norm_num [resQ, kQ] at this
+
+/-! ### At the LOCOMOTIVE level the window with a constant slack IS inductive
+
+  `belSolve` never lets the battery supply auxiliary power the published propulsion limit does
+  not cover when the drivetrain input is `≤ 0` (`aux' = max (min aux (prop_out_max − pin)) 0`),
+  and the SOC guards refuse traction below `min_soc` / regeneration above `max_soc`.  Hence a
+  step that STARTS outside the window never moves SOC further out, and the one-step slack does
+  not accumulate — provided the auxiliary load is non-negative. -/
+
+theorem res_prop_eq (k : Consts α) (r r' : RES α) (aux cb db : α)
+    (h : resSetCurMax k r aux cb db = .ok r') :
+    r'.state.pwrPropOutMax = r'.state.pwrDischMax - aux := by
+  obtain ⟨d, c, _, _, rfl⟩ := resSetCurMax_ok h
+  rfl
+
+/-- **C09.6f** outside the window a battery-locomotive step never moves SOC further out -/
+theorem C09_bel_soc_outside (k : Consts α) (res res' : RES α) (edrv edrv' : Edrv α)
+    (req dt aux : α) (h : belSolve k res edrv req dt aux = .ok (.bel res' edrv'))
+    (hp : Published res) (hprop : res.state.pwrPropOutMax = res.state.pwrDischMax - aux)
+    -- FORCED for the lower side: a negative auxiliary "load" charges; for the upper side see the
+    -- proof (with `pin > 0` the full `aux` is drawn)
+    (haux : 0 ≤ aux) (hdt : 0 ≤ dt) (hcap : 0 < res.energyCapacity)
+    (heta : 0 ≤ res'.state.eta) :
+    (res.state.soc < res.state.minSoc → res.state.soc ≤ res'.state.soc) ∧
+    (res.state.maxSoc < res.state.soc → res'.state.soc ≤ res.state.soc) := by
+  obtain ⟨r', e', aux', hpt, _, hs, ha1, ha2⟩ := belSolve_inv h
+  cases hpt
+  obtain ⟨g1, g2, _, _, eta, _, hr'⟩ := resSolve_ok hs
+  have heq : res'.state.eta = eta := by rw [hr']
+  have hsoc : res'.state.soc = res.state.soc -
+      chem (edrv'.state.pwrElecPropIn + aux') eta * dt / res.energyCapacity := by
+    rw [hr']; rfl
+  rw [heq] at heta
+  rw [hsoc]
+  constructor
+  · intro hlow
+    have hpin : edrv'.state.pwrElecPropIn ≤ 0 := by
+      rcases g2 with g | g
+      · exact absurd hlow (not_lt.mpr g)
+      · exact g
+    have haux' := ha2 (not_lt.mpr hpin)
+    have hD : res.state.pwrDischMax = 0 := by
+      rw [hp.disch]; exact (dischRamp_cases _ _ _ _).1 hlow.le
+    rw [hprop, hD] at haux'
+    have helec : edrv'.state.pwrElecPropIn + aux' ≤ 0 := by
+      rw [haux']
+      rcases le_total (min aux (0 - aux - edrv'.state.pwrElecPropIn)) 0 with hm | hm
+      · rw [max_eq_right hm]; linarith
+      · rw [max_eq_left hm]
+        have := min_le_right aux (0 - aux - edrv'.state.pwrElecPropIn)
+        linarith
+    have hc : chem (edrv'.state.pwrElecPropIn + aux') eta ≤ 0 := by
+      unfold chem
+      rw [if_neg (not_lt.mpr helec)]
+      exact mul_nonpos_of_nonpos_of_nonneg helec heta
+    have : chem (edrv'.state.pwrElecPropIn + aux') eta * dt / res.energyCapacity ≤ 0 :=
+      div_nonpos_of_nonpos_of_nonneg (mul_nonpos_of_nonpos_of_nonneg hc hdt) hcap.le
+    linarith
+  · intro hhigh
+    have hpin : 0 ≤ edrv'.state.pwrElecPropIn := by
+      rcases g1 with g | g
+      · exact absurd hhigh (not_lt.mpr g)
+      · exact g
+    have haux0 : 0 ≤ aux' := by
+      by_cases hp0 : 0 < edrv'.state.pwrElecPropIn
+      · rw [ha1 hp0]; exact haux
+      · rw [ha2 hp0]; exact le_max_right _ _
+    have helec : 0 ≤ edrv'.state.pwrElecPropIn + aux' := add_nonneg hpin haux0
+    have hc : 0 ≤ chem (edrv'.state.pwrElecPropIn + aux') eta := by
+      unfold chem
+      split_ifs with h0
+      · exact div_nonneg helec heta
+      · have : edrv'.state.pwrElecPropIn + aux' = 0 := le_antisymm (not_lt.mp h0) helec
+        rw [this, zero_mul]
+    have : 0 ≤ chem (edrv'.state.pwrElecPropIn + aux') eta * dt / res.energyCapacity :=
+      div_nonneg (mul_nonneg hc hdt) hcap.le
+    linarith
+
+/-- **C09.6g** one battery-locomotive step preserves `[minSoc − D↓, maxSoc + D↑]` for every
+    `D↓ ≥ tol·dt/(ηlo·E)`, `D↑ ≥ tol·ηhi·dt/E` -/
+theorem C09_bel_soc_inductive (k : Consts α) (res res' : RES α) (edrv edrv' : Edrv α)
+    (req dt aux etaLo etaHi Dlo Dhi : α)
+    (h : belSolve k res edrv req dt aux = .ok (.bel res' edrv'))
+    (hp : Published res) (hprop : res.state.pwrPropOutMax = res.state.pwrDischMax - aux)
+    (haux : 0 ≤ aux) (hP : 0 ≤ res.pwrOutMax) (htol : 0 ≤ k.tol) (hdt : 0 < dt)
+    (hcap : 0 < res.energyCapacity) (hlo : 0 < etaLo) (heta1 : etaLo ≤ res'.state.eta)
+    (heta2 : res'.state.eta ≤ etaHi)
+    (H1 : res.pwrOutMax * (1 + k.tol) * dt ≤
+      etaLo * res.energyCapacity * (res.state.socLoRampStart - res.state.minSoc))
+    (H2 : res.pwrOutMax * etaHi * dt ≤
+      res.energyCapacity * (res.state.maxSoc - res.state.socHiRampStart))
+    (hDlo : k.tol * dt / (etaLo * res.energyCapacity) ≤ Dlo)
+    (hDhi : k.tol * etaHi * dt / res.energyCapacity ≤ Dhi) :
+    (res.state.minSoc - Dlo ≤ res.state.soc → res.state.minSoc - Dlo ≤ res'.state.soc) ∧
+    (res.state.soc ≤ res.state.maxSoc + Dhi → res'.state.soc ≤ res.state.maxSoc + Dhi) := by
+  obtain ⟨o1, o2⟩ := C09_bel_soc_outside k res res' edrv edrv' req dt aux h hp hprop haux hdt.le
+    hcap (hlo.le.trans heta1)
+  obtain ⟨r', e', aux', hpt, _, hs, _, _⟩ := belSolve_inv h
+  cases hpt
+  obtain ⟨l, u⟩ := C09_soc_step k res _ aux' dt res' etaLo etaHi hs hp hP htol hdt hcap hlo
+    heta1 heta2 H1 H2
+  constructor
+  · intro hin
+    rcases lt_or_ge res.state.soc res.state.minSoc with hc | hc
+    · exact hin.trans (o1 hc)
+    · rw [min_eq_right hc] at l; linarith
+  · intro hin
+    rcases lt_or_ge res.state.maxSoc res.state.soc with hc | hc
+    · exact (o2 hc).trans hin
+    · rw [max_eq_right hc] at u; linarith
+
+section simrun
+variable {β : Type} [Add β] [Sub β] [Mul β] [Div β] [Neg β] [LT β] [LE β]
+  [DecidableLT β] [DecidableLE β] [OfNat β 0] [OfNat β 1]
+
+/-- one sample of a `LocomotiveSimulation` power trace -/
+structure TracePt (β : Type) where
+  req : β
+  dt : β
+  on : Option Bool
+
+/-- `LocomotiveSimulation::walk`: `solve_step` for every sample; the first error aborts -/
+def locoSimRun (k : Consts β) : Loco β → List (TracePt β) → Res (Loco β)
+  | l, [] => .ok l
+  | l, p :: ps => do
+    let l' ← locoSimStep k l p.req p.dt p.on
+    locoSimRun k l' ps
+
+end simrun
+
+/-- **C09.6h one `LocomotiveSimulation::solve_step` of a battery unit** keeps SOC inside
+    `[minSoc − D↓, maxSoc + D↑]` (static window of the configuration). -/
+theorem C09_locoSim_soc_step (k : Consts α) (l l' : Loco α) (req dt : α) (on : Option Bool)
+    (res : RES α) (edrv : Edrv α) (etaLo etaHi Dlo Dhi : α)
+    (hpt : l.pt = .bel res edrv) (h : locoSimStep k l req dt on = .ok l')
+    (c : Cfg k res) (he : EtaRange res etaLo etaHi) (hlo : 0 < etaLo) (htol : 0 ≤ k.tol)
+    -- FORCED (see `C09_bel_soc_outside`): non-negative auxiliary load
+    (ho : 0 ≤ l.pwrAuxOffset) (hc : 0 ≤ l.pwrAuxTractionCoeff)
+    (hs : DtOK k res etaLo etaHi dt)
+    (hDlo : k.tol * dt / (etaLo * res.energyCapacity) ≤ Dlo)
+    (hDhi : k.tol * etaHi * dt / res.energyCapacity ≤ Dhi) :
+    ∃ res' edrv', l'.pt = .bel res' edrv' ∧ SameCfg k res res' ∧
+      l'.pwrAuxOffset = l.pwrAuxOffset ∧ l'.pwrAuxTractionCoeff = l.pwrAuxTractionCoeff ∧
+      (res.minSoc - Dlo ≤ res.state.soc → res.minSoc - Dlo ≤ res'.state.soc) ∧
+      (res.state.soc ≤ res.maxSoc + Dhi → res'.state.soc ≤ res.maxSoc + Dhi) := by
+  obtain ⟨aux, res1, edrv1, haux, h1, h2, p1, p2⟩ := locoSimStep_bel_ok hpt h
+  obtain ⟨res', edrv', hpt', _⟩ := C09_bel_step k res1 edrv1 req dt aux l'.pt h2
+  rw [hpt'] at h2
+  have s1 := sameCfg_setCurMax h1
+  obtain ⟨r', e', aux', hpt'', _, hsolve, _, _⟩ := belSolve_inv h2
+  cases hpt''
+  have s2 := sameCfg_solve hsolve
+  obtain ⟨k1, k2, k3, k4⟩ := knots_no_buffer k res (c.lo.le.trans c.lo') c.lo' c.hi
+  obtain ⟨e1, e2, e3, e4, e5, e6⟩ := C09_res_knots k res aux 0 0 res1 h1
+  rw [k1] at e3; rw [k2] at e4; rw [k3] at e5; rw [k4] at e6
+  have hp : Published res1 := published_of_setCurMax k res res1 aux 0 0 h1
+    (by rw [k1, k2]; exact c.lo) (by rw [k3, k4]; exact c.hi')
+  obtain ⟨_, _, _, _, eta, heta, hr'⟩ := resSolve_ok hsolve
+  have hetaeq : res'.state.eta = eta := by rw [hr']
+  have hrange := (he.of_same s1) _ _ _ _ heta
+  obtain ⟨hdt, H1, H2⟩ := hs
+  have haux0 : 0 ≤ aux := by rw [haux]; exact locoSetAux_nonneg l on ho hc
+  have := C09_bel_soc_inductive k res1 res' edrv1 edrv' req dt aux etaLo etaHi Dlo Dhi h2 hp
+    (res_prop_eq k res res1 aux 0 0 h1) haux0 (by rw [e1]; exact c.rating) htol hdt
+    (by rw [s1.energyCapacity]; exact c.cap) hlo (by rw [hetaeq]; exact hrange.1)
+    (by rw [hetaeq]; exact hrange.2)
+    (by rw [e1, e3, e4, s1.energyCapacity]; exact H1)
+    (by rw [e1, e5, e6, s1.energyCapacity]; exact H2)
+    (by rw [s1.energyCapacity]; exact hDlo) (by rw [s1.energyCapacity]; exact hDhi)
+  rw [e2, e3, e6] at this
+  exact ⟨res', edrv', hpt', s1.trans s2, p1, p2, this⟩
+
+/-- **C09.6i every accepted battery-locomotive simulation run** whose steps satisfy the step-size
+    condition and are at most `dtMax` long keeps SOC inside
+    `[minSoc − tol·dtMax/(ηlo·E), maxSoc + tol·ηhi·dtMax/E]` — a CONSTANT slack — if it starts
+    there (in particular if it starts inside `[minSoc, maxSoc]`). -/
+def C09_bel_soc_run_statement : Prop :=
+  ∀ (k : Consts α) (l l' : Loco α) (trace : List (TracePt α)) (res : RES α) (edrv : Edrv α)
+    (etaLo etaHi dtMax : α),
+    l.pt = .bel res edrv → locoSimRun k l trace = .ok l' →
+    Cfg k res → EtaRange res etaLo etaHi → 0 < etaLo → 0 ≤ etaHi → 0 ≤ k.tol →
+    0 ≤ l.pwrAuxOffset → 0 ≤ l.pwrAuxTractionCoeff →
+    (∀ p ∈ trace, DtOK k res etaLo etaHi p.dt ∧ p.dt ≤ dtMax) →
+    res.minSoc - k.tol * dtMax / (etaLo * res.energyCapacity) ≤ res.state.soc →
+    res.state.soc ≤ res.maxSoc + k.tol * etaHi * dtMax / res.energyCapacity →
+    ∃ res' edrv', l'.pt = .bel res' edrv' ∧ SameCfg k res res' ∧
+      res.minSoc - k.tol * dtMax / (etaLo * res.energyCapacity) ≤ res'.state.soc ∧
+      res'.state.soc ≤ res.maxSoc + k.tol * etaHi * dtMax / res.energyCapacity
+
+theorem C09_bel_soc_run : C09_bel_soc_run_statement (α := α) := by
+  intro k l l' trace res edrv etaLo etaHi dtMax hpt h c he hlo hhi htol ho hc hs hl hu
+  induction trace generalizing l res edrv with
+  | nil =>
+    rw [locoSimRun] at h; cases h
+    exact ⟨res, edrv, hpt, SameCfg.refl k res, hl, hu⟩
+  | cons p ps ih =>
+    rw [locoSimRun] at h
+    obtain ⟨l1, h1, h2⟩ := (bind_eq_ok _ _ _).mp h
+    obtain ⟨hdtok, hdtmax⟩ := hs p (by simp)
+    have hq : 0 < etaLo * res.energyCapacity := mul_pos hlo c.cap
+    have hDlo : k.tol * p.dt / (etaLo * res.energyCapacity) ≤
+        k.tol * dtMax / (etaLo * res.energyCapacity) :=
+      div_le_div_of_nonneg_right (mul_le_mul_of_nonneg_left hdtmax htol) hq.le
+    have hDhi : k.tol * etaHi * p.dt / res.energyCapacity ≤
+        k.tol * etaHi * dtMax / res.energyCapacity :=
+      div_le_div_of_nonneg_right (mul_le_mul_of_nonneg_left hdtmax (mul_nonneg htol hhi))
+        c.cap.le
+    obtain ⟨res1, edrv1, hpt1, sc, q1, q2, il, iu⟩ := C09_locoSim_soc_step k l l1 p.req p.dt p.on
+      res edrv etaLo etaHi _ _ hpt h1 c he hlo htol ho hc hdtok hDlo hDhi
+    obtain ⟨res', edrv', hpt', sc', l2, u2⟩ := ih l1 res1 edrv1 hpt1 h2 (c.of_same sc)
+      (he.of_same sc) (by rw [q1]; exact ho) (by rw [q2]; exact hc)
+      (fun p' hp' => ⟨(hs p' (by simp [hp'])).1.of_same sc, (hs p' (by simp [hp'])).2⟩)
+      (by rw [sc.minSoc, sc.energyCapacity]; exact il hl)
+      (by rw [sc.maxSoc, sc.energyCapacity]; exact iu hu)
+    rw [sc.minSoc, sc.energyCapacity] at l2
+    rw [sc.maxSoc, sc.energyCapacity] at u2
+    exact ⟨res', edrv', hpt', sc.trans sc', l2, u2⟩
+
+/-! ### ℚ instances at the locomotive level -/
+
+/-- traction 500 W, braking 300 W (regenerated), idle with the engine flag off; 1 s each -/
+def traceQ : List (TracePt ℚ) := [⟨500, 1, some true⟩, ⟨-300, 1, some true⟩, ⟨0, 1, some false⟩]
+
+example : ∃ l' res' edrv', locoSimRun kQ locoBelQ traceQ = .ok l' ∧ l'.pt = .bel res' edrv' ∧
+    resQ.minSoc - kQ.tol * 1 / (9/10 * resQ.energyCapacity) ≤ res'.state.soc ∧
+    res'.state.soc ≤ resQ.maxSoc + kQ.tol * (9/10) * 1 / resQ.energyCapacity := by
+  obtain ⟨l', h⟩ := (isOk_iff _).mp (show (locoSimRun kQ locoBelQ traceQ).isOk = true by
+    decide +kernel)
+  obtain ⟨res', edrv', hpt, _, lo, hi⟩ := C09_bel_soc_run kQ locoBelQ l' traceQ resQ edrvQ (9/10)
+    (9/10) 1 rfl h (cfg_resQ (1/2)) (etaRange_resQ (1/2)) (by norm_num) (by norm_num)
+    (by norm_num [kQ]) (by norm_num [locoBelQ]) (by norm_num [locoBelQ])
+    (by
+      intro p hp
+      simp only [traceQ, List.mem_cons, List.not_mem_nil, or_false] at hp
+      rcases hp with rfl | rfl | rfl <;> norm_num [DtOK, resLo, resHi, resQ, kQ])
+    (by norm_num [resQ, resStQ, kQ]) (by norm_num [resQ, resStQ, kQ])
+  exact ⟨l', res', edrv', h, hpt, lo, hi⟩
+
+-- SOC after the three steps (0.5 − 623.9…/3.6e6 + …): what the model returns
+example : okVal (locoSimRun kQ locoBelQ traceQ)
+    (fun l => match l.pt with | .bel r _ => decide (1/5 ≤ r.state.soc ∧ r.state.soc < 1/2) | _ => false)
+    = some true := by decide +kernel
+
+-- `C09_soc_step_relative`: 750 W against a 1000 W limit passes on the relative branch
+example : ∃ r', resSolve kQ resPubQ 700 50 1 = .ok r' ∧
+    min resPubQ.state.soc resPubQ.state.minSoc ≤ r'.state.soc ∧
+    r'.state.soc ≤ max resPubQ.state.soc resPubQ.state.maxSoc := by
+  have hv : okVal (resSolve kQ resPubQ 700 50 1) (fun r => r.state.eta) = some (9/10) := by
+    decide +kernel
+  obtain ⟨r', h, he⟩ := (okVal_eq_some _ _ _).mp hv
+  refine ⟨r', h, C09_soc_step_relative kQ resPubQ 700 50 1 r' (9/10) (9/10) h published_resPubQ
+    ?_ ?_ ?_ ?_ ?_ ?_ ?_ ?_ ?_ ?_ ?_⟩
+  · norm_num [resPubQ, resQ]
+  · norm_num [kQ]
+  · norm_num
+  · norm_num [resPubQ, resQ]
+  · norm_num
+  · rw [he]
+  · rw [he]
+  · intro _; norm_num [resPubQ, resQ, resStQ, kQ]
+  · intro h0; norm_num at h0
+  · norm_num [resPubQ, resQ, resStQ, kQ]
+  · norm_num [resPubQ, resQ, resStQ, kQ]
+
+/-- battery just below `min_soc` (0.19 < 0.2) behind a drivetrain that may regenerate 800 W -/
+def resBelowQ : RES ℚ := { resQ with state := { resStQ with soc := 19/100 } }
+def edrvRegenQ : Edrv ℚ := { edrvQ with state := { edrvStQ with pwrMechRegenMax := 800 } }
+
+-- `C09_bel_soc_outside`: braking 100 W from below the window charges; SOC does not fall
+example : ∃ r1 res' edrv', resSetCurMax kQ resBelowQ 20 0 0 = .ok r1 ∧
+    belSolve kQ r1 edrvRegenQ (-100) 1 20 = .ok (.bel res' edrv') ∧
+    r1.state.soc ≤ res'.state.soc := by
+  obtain ⟨r1, pt, h1, h2⟩ := isOk_bind (show (resSetCurMax kQ resBelowQ 20 0 0 >>= fun r =>
+    belSolve kQ r edrvRegenQ (-100) 1 20).isOk = true by decide +kernel)
+  obtain ⟨res', edrv', hpt, _⟩ := C09_bel_step kQ r1 edrvRegenQ (-100) 1 20 pt h2
+  subst hpt
+  have hp : Published r1 := published_of_setCurMax kQ resBelowQ r1 20 0 0 h1
+    (by norm_num [sMin, sLo, resLo, resBelowQ, resQ, kQ])
+    (by norm_num [sHi, sMax, resHi, resBelowQ, resQ, kQ])
+  obtain ⟨_, e2, e3, _⟩ := C09_res_knots kQ resBelowQ 20 0 0 r1 h1
+  have hcap : r1.energyCapacity = 3600000 := (sameCfg_setCurMax h1).energyCapacity
+  obtain ⟨_, _, _, hsolve, _, _⟩ := belSolve_inv h2
+  obtain ⟨_, _, _, _, eta, heta, hr'⟩ := resSolve_ok hsolve
+  have hrange := ((etaRange_resQ (19/100)).of_same (sameCfg_setCurMax h1)) _ _ _ _ heta
+  have heq : res'.state.eta = eta := by rw [hr']
+  refine ⟨r1, res', edrv', h1, h2, (C09_bel_soc_outside kQ r1 res' edrvRegenQ edrv' (-100) 1 20 h2
+    hp (res_prop_eq kQ resBelowQ r1 20 0 0 h1) (by norm_num) (by norm_num)
+    (by rw [hcap]; norm_num) (by rw [heq]; linarith [hrange.1])).1 ?_⟩
+  rw [e2, e3]
+  norm_num [sMin, resBelowQ, resQ, resStQ]
 
 end Altrios.Proofs.C09
